@@ -457,7 +457,7 @@ def h6_names(nmax=3, timeout=200, part=None, **kw):
 
 # ------------------------------------------------------------------------------------------------ H7 image samples behind real lossless filter chains
 CHAINS = ["none", "flate", "flate+png10", "flate+png12", "flate+png15", "flate+tiff", "lzw", "lzw+png10", "rl", "ahx", "a85", "a85+flate", "ahx+rl", "a85+flate+png15"]
-CHAIN_GEOM = [(3, 2, "rgb"), (5, 3, "gray"), (9, 2, "bit"), (1, 1, "gray")]
+CHAIN_GEOM = [(3, 2, "rgb"), (5, 3, "gray"), (9, 2, "bit"), (1, 1, "gray"), (52, 50, "gray"), (40, 30, "rgb")]      # the last two: noisy samples, so that an LZW table passes 2047 entries (12-bit codes) without a clear code
 
 
 def _chain_stream(chain, w, h, kind):
@@ -469,6 +469,12 @@ def _chain_stream(chain, w, h, kind):
     colors, bits = (3, 8) if kind == "rgb" else (1, 8 if kind == "gray" else 1)
     rowbytes = (w * colors * bits + 7) // 8
     samples = bytes((37 * i + 11) % 256 for i in range(rowbytes * h))
+    if rowbytes * h > 1000:                 # poorly compressible: a linear congruential sequence
+        x, out = 12345, bytearray()
+        for _ in range(rowbytes * h):
+            x = (x * 1103515245 + 12345) & 0x7FFFFFFF
+            out.append((x >> 16) & 0xFF)
+        samples = bytes(out)
     if kind == "bit":                       # unused low bits of the last byte of a row are zero
         pad = rowbytes * 8 - w
         samples = bytes((b & (0xFF << pad) & 0xFF) if (i % rowbytes) == rowbytes - 1 else b for i, b in enumerate(samples))
